@@ -8,7 +8,7 @@
 (* and grids with unsorted, repeated, outside and single-point axes, and   *)
 (* emits the expected entries for the conformance driver.                  *)
 (***************************************************************************)
-EXTENDS Table, TLC, Json
+EXTENDS GridAlgo, TLC, Json
 CONSTANTS MaxCase
 
 AxisK(id) == CASE id = 1 -> [n |-> 0, t |-> <<0, 1, 3, 4>>]
@@ -51,7 +51,17 @@ Emit == Len(cs) = 2 =>
         entries == [f \in 1 .. total |-> LET idx == IdxOf(f) IN
                        IF Inside(T, Pt(idx)) THEN [idx |-> idx, inside |-> TRUE, val |-> RatJ(EvalTable(T, Pt(idx)))]
                        ELSE [idx |-> idx, inside |-> FALSE, val |-> <<0, 1>>]]
-    IN  /\ Assert(WellFormed([T EXCEPT !.extents = <<>>]) \/ TRUE, "shape")
+        (* the transcribed algorithm (GridAlgo): ranges = grid lengths, indices in range and unique, and at every grid point the  *)
+        (* value of the right-continuous tensor-product sum - which is the table's value wherever the point is strictly inside  *)
+        G == GridEvalAlgo(T, coords)
+        RightSum(x) == LET RECURSIVE S(_) S(f) == IF f > Len(T.coef) THEN Zero ELSE
+                               LET idx == Unflatten(f - 1, T.naxes)
+                                   RECURSIVE Pr(_) Pr(d) == IF d > nd THEN One ELSE RMul(B(T.knots[d], T.order[d], idx[d], x[d], "R"), Pr(d + 1))
+                               IN  RAdd(RMul(R(T.coef[f]), Pr(1)), S(f + 1))
+                       IN S(1)
+        AlgoOK == /\ G.ranges = lens /\ NoDuplicates(G) /\ IndicesInRange(G)
+                  /\ \A f \in 1 .. total : At(G, IdxOf(f)) = RightSum(Pt(IdxOf(f)))
+    IN  /\ Assert(AlgoOK, <<"grideval algorithm differs from the tensor-product sum", axes, gids>>)
         /\ PrintT(ToJson([order |-> T.order, knots |-> T.knots, coef |-> T.coef,
                           coords |-> [d \in 1 .. nd |-> [k \in 1 .. lens[d] |-> RatJ(coords[d][k])]], entries |-> entries]))
 =============================================================================
